@@ -17,21 +17,12 @@ Changed(e) == ToSet(e.created) \cup ToSet(e.modified) \cup ToSet(e.removed)
 ContainedP(e) == \A p \in Changed(e) : Below(e.out, p)
 
 \* ---- D ---------------------------------------------------------------------------------------------
-\* the driver's concretisation of an abstract name (index i0 = position in the archive, 0-based), in the
-\* renamed spelling of the `touched` field; a leading separator is redirected to the sandbox's stand-in root
-Conc(k, i0, last) == CASE k = "a" -> "a#" \o ToString(i0)
-                       [] k = "U" -> "U#" \o ToString(i0)
-                       [] k = "L" -> "L#" \o ToString(i0)
-                       [] k = "C" -> IF last THEN "C:f#" \o ToString(i0) ELSE "C:"
-                       [] k = "T" -> "..."
-                       [] k = "Q" -> "...."
-                       [] k = "S" -> ".. "
-                       [] OTHER   -> k
-ConcName(n, i0) == LET cs == [j \in 1..Len(n.c) |-> Conc(n.c[j], i0, j = Len(n.c))] IN
-                   IF HasRoot(n.c) THEN <<"E">> \o StandInRoot \o Tail(cs) ELSE cs
+Unread(e) == {i \in 1..Len(e.names) : e.names[i].r # "present"}
 OptOf(e) == [preserve |-> e.preserve, explicit |-> e.explicit, chain |-> e.chain,
-             form |-> e.outform, preout |-> e.preout]
-Predicted(e, guard) == UNION {PredictTouched(ConcName(e.names[i], i - 1), OptOf(e), guard) : i \in 1..Len(e.names)}
+             form |-> e.outform, preout |-> e.preout, skip |-> e.skip, unread |-> Unread(e)]
+\* unreadable entries touch nothing; a single archive without --skip-errors touches nothing at all if one entry is unreadable
+Predicted(e, guard) == IF EarlyAbortOf([i \in 1..Len(e.names) |-> e.names[i].c], OptOf(e)) THEN {}
+                       ELSE UNION {PredictTouched(ConcName(e.names[i], i - 1), OptOf(e), guard) : i \in (1..Len(e.names)) \ Unread(e)}
 Observed(e) == ToSet(e.touched)
 
 \* classification of a rejected run (goes into the finding signature): is every outside path one the model of
@@ -49,7 +40,7 @@ Diag(e) == IF e.built # "ok" \/ e.exit < 0 THEN PrintT(<<"DRIFT", tl, "run not p
            ELSE IF Observed(e) = Predicted(e, FALSE) THEN PrintT(<<"DRIFT", tl, "touched set matches the unguarded deviation, not the code as written">>)
            ELSE PrintT(<<"DRIFT", tl, "touched set differs from both models">>)
 
-TInit == tl = 1 /\ InitWith(<<>>, [preserve |-> FALSE, explicit |-> TRUE, chain |-> FALSE, form |-> "rel", preout |-> FALSE])
+TInit == tl = 1 /\ InitWith(<<>>, [preserve |-> FALSE, explicit |-> TRUE, chain |-> FALSE, form |-> "rel", preout |-> FALSE, skip |-> TRUE, unread |-> {}])
 Step(e) == CASE e.ev = "Reset"   -> TRUE
              [] e.ev = "Extract" -> /\ Diag(e)
                                     /\ IF ContainedP(e) THEN TRUE ELSE PrintT(<<"BAD", tl, EscapeKind(e)>>)
